@@ -183,5 +183,52 @@ def rule_self_justifying(ctx):
     ctx.ob(R, "get_justification returns held certificates", ok, "Commit(self.high_commit_qc) / Timeout(self.high_timeout_qc)" if ok else "get_justification returns %s" % [show(r)[:100] for r in rets], g.loc())
 
 
-RULES = [("C05.1", rule_who_writes), ("C05.2", rule_strictly_newer), ("C05.5", rule_stale_new_view), ("C05.6", rule_stale_votes),
+def rule_justification_choice(ctx):
+    R = "C05.4"
+    ctx.rule(R, "justification choice (table over held commit/timeout certificates and their view order): Commit is chosen iff a commit certificate is held and (no timeout certificate is held or commit.view >= timeout.view); with neither held only the assertion is reachable")
+    g = ctx.fn(SM + "::get_justification")
+    T = ctx.T(g)
+
+    def is_c(t):
+        return self_field(t, "high_commit_qc")
+
+    def is_t(t):
+        return self_field(t, "high_timeout_qc")
+
+    def m(a, b):
+        def side(t):
+            subs = list(subterms(t))
+            if any(is_c(x) for x in subs):
+                return "c"
+            if any(is_t(x) for x in subs):
+                return "t"
+            return None
+        sa, sb = side(a), side(b)
+        if sa == "c" and sb == "t":
+            return 1
+        if sa == "t" and sb == "c":
+            return -1
+        return 0
+    atoms = [Atom("commit", "opt", is_c, ["None", "Some"]), Atom("timeout", "opt", is_t, ["None", "Some"]), Atom("cmp(commit.view,timeout.view)", "cmp", m, ["<", "=", ">"])]
+    W = Walker(ctx, g, atoms)
+    rc = [bi for bi, b in enumerate(g.blocks) for s in b["s"] if s["k"] == "assign" and s["p"]["l"] == 0 and s["r"]["k"] == "agg" and s["r"].get("variant") == "Commit"]
+    rt = [bi for bi, b in enumerate(g.blocks) for s in b["s"] if s["k"] == "assign" and s["p"]["l"] == 0 and s["r"]["k"] == "agg" and s["r"].get("variant") == "Timeout"]
+    pan = [c["bb"] for c in T.calls() if c["q"] in ("std::panicking::panic", "std::panicking::panic_fmt")]
+    names, tab = W.table({"Commit": rc, "Timeout": rt, "assert": pan})
+    seen = set()
+    for (c, t, o), reach in sorted(tab.items()):
+        if c == "None" and t == "None":
+            exp, key = {"assert"}, "none held"
+        elif c == "Some" and (t == "None" or o in ("=", ">")):
+            exp, key = {"Commit"}, "commit held, timeout %s" % ("absent" if t == "None" else "view %s= commit" % ("<" if o == ">" else "="))
+        else:
+            exp, key = {"Timeout"}, "timeout newer or commit absent (c=%s t=%s %s)" % (c, t, o if c == "Some" else "-")
+        if key in seen and reach == exp:
+            continue
+        seen.add(key)
+        ctx.ob(R, "row %s" % key, reach == exp, "-> %s" % sorted(reach) if reach == exp else
+               "with commit=%s timeout=%s order %s get_justification reaches %s; specified %s (spec/informal-spec/replica.rs create_justification)" % (c, t, o, sorted(reach), sorted(exp)), g.loc())
+
+
+RULES = [("C05.1", rule_who_writes), ("C05.4", rule_justification_choice), ("C05.2", rule_strictly_newer), ("C05.5", rule_stale_new_view), ("C05.6", rule_stale_votes),
          ("C05.7", rule_self_justifying), ("C05.8", rule_wrong_leader)]
